@@ -76,7 +76,7 @@ def main():
         meta["applies_to_repo"] = False
         return 2
     try:
-        rc, o = sh("./check %s --tier quick" % pid, "/verif", timeout=3000)
+        rc, o = sh("VERIF_OUT=/tmp/verif-seed-out ./check %s --tier quick" % pid, "/verif", timeout=3000)
     finally:
         sh("git -C /repo checkout -- .", "/verif")
     lines = [l for l in o.split("\n") if l.startswith(("VIOLATION", "OK ", "KNOWN-FINDING"))]
